@@ -256,6 +256,23 @@ pub fn scenario(rng: &mut Rng, tier: Tier) -> Scenario {
             paths.push(p);
         }
     }
+    // spellings of one device (doubled and trailing separators, ./, /.): rendered on the same
+    // expression they are still different path strings
+    if rng.chance(1, 4) {
+        let base = paths[1 + rng.usize_below(paths.len() - 1)].clone();
+        if !base.is_empty() {
+            let alias = match rng.below(5) {
+                0 => format!("{base}/"),
+                1 => base.replacen('/', "//", 1),
+                2 => format!("./{base}"),
+                3 => format!("{base}/."),
+                _ => base.to_uppercase(),
+            };
+            if !paths.contains(&alias) {
+                paths.push(alias);
+            }
+        }
+    }
     let n_slots = rng.range(1, 3) as usize;
     let mut ops = vec![];
     // every slot is filled early so that renders have something to work on
